@@ -376,6 +376,11 @@ class FuncFacts:
             return fs
         out = []
         for a in fs:
+            if a[0] == 'imp':
+                # a guarded fact lives as long as both its guard and the fact under it would
+                if len(FuncFacts._apply_kills(frozenset((a[1], a[2])), kill_all, writes, names)) == 2:
+                    out.append(a)
+                continue
             toks = tokens(a[1])
             vtoks = var_tokens(a[1])
             if a[0] in ('same', 'differ', 'flagdef'):
@@ -392,8 +397,12 @@ class FuncFacts:
         if isinstance(target, ast.Name):
             # ``flag = isinstance(x, T)`` / ``flag = a is None or b``: the local stands for the predicate until it or an operand is re-bound
             v = strip_cast(value)
-            if self._pure_predicate(v) and target.id not in {x.id for x in ast.walk(v) if isinstance(x, ast.Name)}:
+            if self._pure_predicate(v) and not isinstance(v, ast.Name) and target.id not in {x.id for x in ast.walk(v) if isinstance(x, ast.Name)}:
+                # (``a = b`` between two locals is a second name, not a predicate: tests of ``a`` stay tests of ``a``)
                 return {('flagdef', target.id, norm(v))}
+            if isinstance(v, ast.Constant) and (v.value is None or isinstance(v.value, bool)):
+                # ``settled = True`` in one branch, ``settled = False`` in another: the joins keep what holds under each (guarded facts, see _join)
+                return {('none', target.id), ('F', target.id)} if v.value is None else ({('T', target.id), ('notnone', target.id)} if v.value else {('F', target.id), ('notnone', target.id)})
             return set()
         k = self.canon.key(target)
         v = strip_cast(value)
@@ -527,14 +536,65 @@ class FuncFacts:
             res['*'] = base | frozenset(self.cond_atoms(a.test, True))
         else:
             res['*'] = base | frozenset(gens)
-        return res
+        return {k: self._release(v) for k, v in res.items()}
+
+    @staticmethod
+    def _release(fs: FrozenSet[Atom]) -> FrozenSet[Atom]:
+        """A guarded fact whose guard holds is a fact."""
+        if not any(a[0] == 'imp' for a in fs):
+            return fs
+        cur = set(fs)
+        while True:
+            add = {a[2] for a in cur if a[0] == 'imp' and a[1] in cur and a[2] not in cur}
+            if not add:
+                return frozenset(cur)
+            cur |= add
+
+    _OPP = {'T': 'F', 'F': 'T', 'none': 'notnone', 'notnone': 'none'}
+
+    @classmethod
+    def _join(cls, vals: List[FrozenSet[Atom]]) -> FrozenSet[Atom]:
+        """What holds on all incoming edges.  Beyond the plain intersection: where a LOCAL flag has a known value on every edge, true on some and false on others
+        (``settled = True`` / ``settled = False`` in the arms of an if-ladder, as left behind by a helper that returns ``(settled, outcome)``), what holds on all the
+        edges of one value is kept as a fact GUARDED by that value -- ``('imp', ('T', 'settled'), fact)`` -- and released again by a later test of the flag."""
+        if not vals:
+            return frozenset()
+        first = vals[0]
+        if all(v == first for v in vals[1:]):
+            return first
+
+        def contradicted(g: Atom, fs: FrozenSet[Atom]) -> bool:
+            o = cls._OPP.get(g[0])
+            return o is not None and len(g) == 2 and (o, g[1]) in fs
+
+        def holds(a: Atom, fs: FrozenSet[Atom]) -> bool:
+            if a in fs:
+                return True
+            return a[0] == 'imp' and (a[2] in fs or contradicted(a[1], fs))
+        out = {a for v in vals for a in v if all(holds(a, w) for w in vals)}
+        flags = {a[1] for a in first if a[0] in ('T', 'F') and len(a) == 2 and a[1].isidentifier()}
+        for x in flags:
+            sides = {'T': [v for v in vals if ('T', x) in v], 'F': [v for v in vals if ('F', x) in v]}
+            if not sides['T'] or not sides['F'] or len(sides['T']) + len(sides['F']) != len(vals):
+                continue
+            for side, group in sides.items():
+                common = frozenset.intersection(*group)
+                for a in common:
+                    if a not in out and a[0] != 'imp' and not (len(a) == 2 and a[1] == x):
+                        out.add(('imp', (side, x), a))
+        return frozenset(out)
 
     def _solve(self) -> None:
         cfg = self.cfg
         self.in_[cfg.entry.id] = self.entry
         work = [cfg.entry]
         outs: Dict[int, Dict[Optional[str], FrozenSet[Atom]]] = {}
+        preds: Dict[int, List[Tuple[Node, Optional[str]]]] = {}
+        for n in cfg.nodes:
+            for t, label in n.succ:
+                preds.setdefault(t.id, []).append((n, label))
         iters = 0
+        updates: Dict[int, int] = {}
         while work:
             iters += 1
             if iters > 20000:
@@ -546,9 +606,17 @@ class FuncFacts:
             o = self._transfer(n, fs)
             outs[n.id] = o
             for t, label in n.succ:
-                val = o.get(label, o['*'])
+                # the facts at a node: what holds on ALL the edges into it that have been reached so far (computed over all of them at once, so that what holds on
+                # all the edges of one value of a flag can be kept under that value, see _join)
+                vals = [outs[p.id].get(l, outs[p.id]['*']) for p, l in preds.get(t.id, ()) if p.id in outs]
+                if t is cfg.entry:
+                    vals.append(self.entry)
                 cur = self.in_[t.id]
-                new = val if cur is TOP else (cur & val)
+                new = self._join(vals)
+                updates[t.id] = updates.get(t.id, 0) + 1
+                if cur is not TOP and updates[t.id] > 40:
+                    # (a node that keeps changing: from here on its facts only descend -- never stronger than before -- which ends the iteration)
+                    new = self._join([cur, new]) if new != cur else new
                 if cur is TOP or new != cur:
                     self.in_[t.id] = new
                     work.append(t)
